@@ -38,7 +38,7 @@ ASSUMPTIONS = ["box frequency profiles are not combined with sub-sample integrat
                "the failing frame's own data is not judged after a fault"]
 PROBES = ["callback_raised_on_frame_k>0", "interrupt_inside_later_frame", "integrate_path", "integrate_t_profile",
           "integrate_f_profile", "doppler_smearing", "slice_subset", "label_subset", "repeated_injection", "gaps_between_frames",
-          "array_path", "bounding_range", "stateful_rfi_path", "noncontiguous_subset", "parent_built_with_t_overwrite"]
+          "array_path", "bounding_range", "stateful_rfi_path", "noncontiguous_subset", "parent_built_with_t_overwrite", "second_injection_through_other_selection"]
 MAX_LINE_POINTS = 1500
 
 
@@ -89,6 +89,7 @@ def generate(rng, tier):
             "select": {"kind": sel, "a": rng.choice([0, 1]), "b": rng.choice([None, -1, 3]), "label": rng.choice(["A", "B"]),
                        "idx": [rng.randrange(6) for _ in range(rng.choice([1, 2, 3]))]},
             "parent_overwrite": rng.random() < 0.3,
+            "select2": rng.choice([None, None, "all", "slice", "stride", "index", "label" if ordered else "slice"]),
             "path": path, "t": tprof, "f": fprof, "bp": bp, "opts": opts, "bounding": bounding,
             "repeats": rng.choice([1, 1, 2]), "t_slew": rng.choice([0.0, 10.0, 300.25]), "ops": []}
 
@@ -285,6 +286,21 @@ def execute(sc, ctx):
         if not ctx.check(np.all(np.abs(st0 - sc["t_slew"]) <= tol0), "slew", "C16/overwrite_times/slew_spacing_lost_after_selection",
                          lambda: "slew_times %r, t_slew %r" % (st0, sc["t_slew"])):
             return
+    def select(kind):
+        if kind == "slice":
+            return full[sel["a"]:sel["b"]]
+        if kind == "stride":
+            return full[sel["a"]::2]
+        if kind == "index":
+            return full[sorted({i % len(full) for i in sel.get("idx", [0])})]
+        if kind == "label" and sc["ordered"]:
+            return full.by_label(sel["label"])
+        return full
+    cad2 = None
+    if sc.get("select2") and sc["repeats"] > 1:
+        cad2 = select(sc["select2"])
+        if len(cad2) == 0 or [id(f) for f in cad2] == [id(f) for f in cad]:
+            cad2 = None
     members = list(cad)
     all_frames = list(full)
     if len(members) == 0:
@@ -332,14 +348,25 @@ def execute(sc, ctx):
     ts_before = [np.array(fr.ts, copy=True) for fr in all_frames]
     expected_delta = [np.zeros(fr.shape) for fr in members]
     timedep = False
+    base_members, base_t0 = members, t0
     for rep in range(sc["repeats"]):
         if rep:
             ctx.hit("repeated_injection")
+        use = cad
+        members, t0 = base_members, base_t0
+        if rep == 1 and cad2 is not None and sc["path"]["kind"] != "array" and sc["t"]["kind"] != "array":
+            # the same frames, now reached through another selection: other first frame, other offsets
+            use = cad2
+            members = list(cad2)
+            t0 = members[0].t_start
+            ctx.hit("second_injection_through_other_selection")
+            for j, fr in enumerate(members):
+                instrument(fr, j)
         path, tp, fp, bpp, timedep = wrapped_components(box)
         tpath, ttp, tfp, tbpp, _ = make_components(sc, tch0, fmin)       # twin's own instances (same seeds)
         data_before = [np.array(fr.data, copy=True) for fr in all_frames]
         try:
-            cad.add_signal(path, tp, fp, bpp, **kw)
+            use.add_signal(path, tp, fp, bpp, **kw)
         except Exception as e:
             ctx.violation("nominal", "C16/nominal/raises:%s" % type(e).__name__, repr(e))
             return
@@ -362,7 +389,8 @@ def execute(sc, ctx):
                               "frame %d (offset %.6g s): injected data differs from single-frame injection evaluated at "
                               "t + offset; max |diff| %.4g of scale %.4g" % (j, off, float(np.max(np.abs(delta - want))), scale))
                 return
-            expected_delta[j] += want
+            if use is cad:
+                expected_delta[j] += want
             ctx.checks += 1
         # frames that are not members must be untouched
         for k_all, fr in enumerate(all_frames):
@@ -370,6 +398,10 @@ def execute(sc, ctx):
                 ctx.check(np.array_equal(fr.data, data_before[k_all]), "isolation", "C16/data/non_member_frame_touched", "")
         if not _ts_intact(ctx, all_frames, ts_before, members, t0, rep + 1, "after_injection"):
             return
+    used_other = members is not base_members
+    members, t0 = base_members, base_t0
+    for j, fr in enumerate(members):
+        instrument(fr, j)
     if len(members) >= 2 and timedep:
         ctx.nontrivial = True
     ctx.sim_time += sum(fr.tchans for fr in members) * g["dt"]
